@@ -12,16 +12,20 @@ impl Arena {
     pub fn new(limiter: SharedMemoryLimiter, preallocated_size: usize) -> Self {
         let mut data = Vec::new();
 
+        // NOTE: HtmlRewriter::new() has no way to report that the preallocated size doesn't fit
+        // into `MemorySettings::max_allowed_memory_usage`: preallocate as much as the limit allows.
+        let preallocated_size = preallocated_size.min(limiter.max());
+
         let preallocated = limiter
             .increase_usage(preallocated_size)
             .ok()
             .and_then(|()| data.try_reserve_exact(preallocated_size).ok())
             .is_some();
-        // HtmlRewriter::new() has no way to report this
-        debug_assert!(
-            preallocated,
-            "Total preallocated memory size should be less than `MemorySettings::max_allowed_memory_usage`."
-        );
+        if !preallocated {
+            // NOTE: don't account for memory that wasn't allocated. The buffer is then allocated
+            // on demand, and exceeding the limit is reported by `write()` as usual.
+            limiter.decrease_usage(preallocated_size);
+        }
 
         Self { limiter, data }
     }
